@@ -201,7 +201,7 @@ PROPS['C04'].update({
     'obligation_files': ['Properties/C04.v', 'Lemmas/DriverLemmas.v', 'Lemmas/DriverLemmas4.v', 'Lemmas/DriverLemmas5.v', 'Lemmas/SearchBoardInst.v', 'Impl/ImplBoard.v'],
     'level': 'proof',
     'level_text': 'Proof on the driver transition system (Model/Driver.v: command loop, search goroutine, forwarder, movetime timer and hard-limit timer as separately scheduled processes over the active / searches counters, the update channel with sequence numbers and the AsyncCloser handle): in every reachable state of every script under every interleaving each go has at most one bestmove, a bestmove is only ever emitted for a go, and once the system is at rest every go that was not superseded and whose search ended by itself, was stopped, timed out or was answered by the book has exactly one; Halt returns a completed iteration of depth >= 1. Legality / null move: the PV of the full-window root search on the real board model is a line of legal moves, empty only without legal moves or at a draw-by-rule root (board_pv_sound_nott; with a table the sequential end-to-end model UciSeq.go_depth is compared with the driver output and the specification). The model is tied to the code by replaying every command/output trace recorded from the real driver (four engine configurations, race build, random timing) through the trace acceptor of the model (Driver.obs_ok) and by the sequential end-to-end model.',
-    'level_note': 'The transition system is hand-written from uci.go / engine.go / iterative.go; its tie to the code is the trace acceptor (real traces must be accepted) plus exhaustive exploration of two scripts (all 3289 / 7457 states satisfy the invariants and their traces are accepted); scheduling fairness and Go channel semantics are modelled, wall-clock timers are nondeterministic events. Legality with a transposition table rests on the differential check (C11 shows table-on = table-off for scores, PV legality under hash collision is not proved). Trusted: Coq kernel, extraction, harness.',
+    'level_note': 'The transition system is hand-written from uci.go / engine.go / iterative.go; its tie to the code is the trace acceptor: real traces must be accepted by Driver.obs_ok, and obs_sound proves that the acceptor accepts every trace of the model (so a rejected real trace is behaviour outside the model); in addition two scripts are explored exhaustively (3289 / 7457 states); scheduling fairness and Go channel semantics are modelled, wall-clock timers are nondeterministic events. Legality with a transposition table rests on the differential check (C11 shows table-on = table-off for scores, PV legality under hash collision is not proved). Trusted: Coq kernel, extraction, harness.',
 })
 PROPS['C16'] = _board('C16', [],
     'randomly timed command scripts (isready, stop, new position / go / ucinewgame during a search, junk and empty lines, quit and end of input while searching) against the real driver with the four bundled engine configurations, under the race detector; positions alternate the side to move so that an answer computed for a superseded search is recognisably illegal.',
@@ -209,15 +209,23 @@ PROPS['C16'] = _board('C16', [],
 PROPS['C16'].update({'stress': ['C16']})
 PROPS['C16'].update({
     'coq_targets': ['Properties/C16.vo', 'Impl/ImplBoard.vo'],
-    'obligation_files': ['Properties/C16.v', 'Lemmas/DriverLemmas.v', 'Lemmas/DriverLemmas7.v', 'Lemmas/DriverLemmas8.v'],
+    'obligation_files': ['Properties/C16.v', 'Lemmas/DriverLemmas.v', 'Lemmas/DriverLemmas7.v', 'Lemmas/DriverLemmas8.v', 'Lemmas/DriverTrace.v', 'Lemmas/DriverTrace3.v'],
     'level': 'proof',
-    'level_text': 'Proof on the driver transition system, for every script (isready, ucinewgame, position good/bad, go with every option mix, book-answered go, stop, quit, junk, end of input) and every interleaving of loop, search goroutine, forwarder and the two timers: nothing is ever sent on the closed output channel (the only panic path of the loop), the output is closed iff the loop has exited; the search whose updates are accepted is always the latest one, so a superseded search is never answered and no bestmove is emitted between a superseding command and the next go; every isready is answered by readyok in the same loop step; no reachable state is stuck (the loop blocked in Halt always has a way forward, the search goroutine never blocks, forwarders drain); after quit / end of input nothing more is emitted and the exited state can always be reached. The hand-off as found (before the fix: commits) is refuted by three concrete traces (send on closed channel, stale bestmove, stale movetime timer). Tie to the code: recorded traces of the real driver under the race detector are replayed through the model trace acceptor; liveness, panics, races and output closure are observed directly.',
+    'level_text': 'Proof on the driver transition system, for every script (isready, ucinewgame, position good/bad, go with every option mix, book-answered go, stop, quit, junk, end of input) and every interleaving of loop, search goroutine, forwarder and the two timers: nothing is ever sent on the closed output channel (the only panic path of the loop), the output is closed iff the loop has exited; the search whose updates are accepted is always the latest one, so a superseded search is never answered and no bestmove is emitted between a superseding command and the next go; every isready is answered by readyok in the same loop step; no reachable state is stuck (the loop blocked in Halt always has a way forward, the search goroutine never blocks, forwarders drain); after quit / end of input nothing more is emitted and the exited state can always be reached. The hand-off as found (before the fix: commits) is refuted by three concrete traces (send on closed channel, stale bestmove, stale movetime timer). Whole-trace form (obs_sound): every output trace the transition system can produce up to the exit of the loop is accepted by the executable trace acceptor Driver.obs_ok (declarative semantics obs_ok_iff; count form obs_counts_sound). Tie to the code: the command/output traces recorded from the real driver under the race detector are run through the same extracted acceptor on every check - a rejected trace is behaviour the model cannot produce; liveness, panics, races and output closure are observed directly.',
     'level_note': 'Hand-written transition system (see C04 note). No-deadlock is stated as "not stuck" plus "can finish" - termination under a fair scheduler is not formalised. Data races are outside the model (race detector only). Trusted: Coq kernel, extraction, harness.',
 })
 
 PROPS['C18'] = _board('C18', ['C18', 'C15'],
     'for each of the four bundled engine configurations (noise off, no table): random games from the start or curated positions, analysed to depth 1-3: on a fresh engine, twice on one engine, with Zobrist seeds 0/1/99, after unrelated searches and after searching the SAME position with a different history (a reversible 4-ply shuffle appended: same position and hash, other HasMoved / last move / move number), concurrently on three engines, and with noise on twice from the same seed; every analysis also checks that the engine s own game (FEN and all board getters) is unchanged.',
     'Last reported PV (depth, node count, score, moves) must be identical across all runs of the same game state and depth; the engine game must be unchanged by Analyze.')
+
+PROPS['C18'].update({
+    'coq_targets': ['Properties/C18.vo', 'Impl/ImplBoard.vo'],
+    'obligation_files': ['Properties/C18.v', 'Lemmas/DeterminismLemmas.v', 'Lemmas/DeterminismLemmas3.v', 'Lemmas/DeterminismLemmas4.v', 'Impl/ImplBoard.v'],
+    'level': 'proof',
+    'level_text': 'Proof on the model search (the Gallina function compared with the Go search node for node on every run): the answer - node count, score, principal variation, halted flag, number of polls - is the same on any two heap boards that carry the same legal game hashed with two arbitrary key tables (zrel: equal in everything but hashes and heap addresses), for any hash-blind move policy and leaf (the engine policies qualify), any cancellation oracle, depth and window, with or without quiescence, hash collisions included (an all-zero key table is an instance); hence it is a function of the hash-free game state: new boards, replayed games and forks of a game are in one class whatever was searched before on the heap (analysis_repeatable). A search on a fork - any table, policy, cancellation - leaves every getter of the engine s own board (of any board whose history does not run through the searched head node) unchanged. Repeating a search on the very board a search handed back is NOT a theorem without the RootFlag hypothesis (returned_board_needs_rootflag; the engine always analyses a fork). Implementation: identical last PV across repeat / seeds / other searches before / other history of the same position / concurrent engines; engine game unchanged by Analyze.',
+    'level_note': 'Evaluation noise (math/rand) is not modelled: reproducibility from the seed is differential only. Independence of concurrently running engines is by construction in the model (no shared state) and checked under the race detector for the Go code. The iterative-deepening layer is covered by C15 (iterate_reports: each reported entry is the direct search). Trusted: Coq kernel, harness.',
+})
 
 PROPS['C20'] = _board('C20', ['C20'],
     'every curated position as it stands (e.p. targets, castling rights, promotions, mates) and 120 (quick) / 3000 (thorough) short games (0-13 plies, biased to special moves) from the start, curated and random positions, each also set up colour-mirrored with mirrored moves; opening books: bundled books and books built with engine.NewBook from generated lines, queried on all positions of the lines, of transposing games (same placement, different e.p. status / castling rights) and of random playouts.',
